@@ -1339,3 +1339,20 @@ package main
 //@   ensures removed: (lower(protocol) == "udp" || lower(protocol) == "tcp") ==> !has(c.transports, tkey(lower(protocol), host, port, transId))
 //@   ensures others: forall k string :: k != tkey(lower(protocol), host, port, transId) ==> has(c.transports, k) == old(has(c.transports, k)) && c.transports[k] == old(c.transports[k])
 //@   ensures unsupported-noop: lower(protocol) != "udp" && lower(protocol) != "tcp" ==> (forall k string :: has(c.transports, k) == old(has(c.transports, k)) && c.transports[k] == old(c.transports[k]))
+
+// ---- byte streams: line reassembly and message framing (C11, C10) ----
+// RS[r] is the sequence of bytes reader r has not delivered yet; for a TCP connection it is everything the
+// connection will ever deliver, however it is segmented. The contracts below are functions of RS alone.
+
+//@ func readLine
+//@   props C11 C10
+//@   uses stream
+//@   borrowed-result reader
+//@   modifies RS, RU, RE
+//@   ensures line: err == nil ==> result == lineOf(old(RS[reader])) && RS[reader] == afterLine(old(RS[reader]))
+//@   ensures nothing-on-empty: old(RS[reader]) == "" ==> err != nil
+//@   ensures failed-empty: err != nil ==> len(result) == 0
+//@   ensures other-streams: forall r int :: r != reader ==> RS[r] == old(RS[r])
+//@   loop 0:
+//@     invariant forall r int :: r != reader ==> RS[r] == old(RS[r])
+//@     invariant lineOf(old(RS[reader])) == line + lineOf(RS[reader]) && afterLine(old(RS[reader])) == afterLine(RS[reader])
